@@ -115,6 +115,11 @@ func gen(rng *rand.Rand, w *vh.World, repo string, n int) tcase {
 		var obj map[string]any
 		_ = json.Unmarshal(mm.Raw, &obj)
 		delete(obj, "mediaType")
+		if cfg, ok := obj["config"].(map[string]any); ok && rng.Intn(2) == 0 {
+			// ... and without the media type of the config either: nothing in the body names a type, only its shape
+			// (config and layers) says what it is
+			delete(cfg, "mediaType")
+		}
 		b, _ := json.Marshal(obj)
 		tc.body = b
 		if mm.Index {
